@@ -318,10 +318,138 @@ fn real_node_events(rng: &mut Rng, out: &mut Out, runs: usize) {
     }
 }
 
+/// The actual children of a node, read from `inner()` and never from an iterator: the left and right child *objects*.
+fn kids<'a, N: simplicity::node::Marker>(n: &'a simplicity::node::Node<N>, right: fn(&'a N::Disconnect) -> Option<&'a simplicity::node::Node<N>>)
+    -> (Option<&'a simplicity::node::Node<N>>, Option<&'a simplicity::node::Node<N>>) {
+    use simplicity::node::Inner::*;
+    match n.inner() {
+        Iden | Unit | Witness(_) | Fail(_) | Jet(_) | Word(_) => (None, None),
+        InjL(c) | InjR(c) | Take(c) | Drop(c) | AssertL(c, _) | AssertR(_, c) => (Some(&**c), None),
+        Comp(l, r) | Case(l, r) | Pair(l, r) => (Some(&**l), Some(&**r)),
+        Disconnect(l, d) => (Some(&**l), right(d)),
+    }
+}
+
+/// All traversals of one real program of marker `N`, through both `DagLike` implementations (`&Node<N>` and `Arc<Node<N>>`),
+/// against the DAG as `inner()` shows it: objects numbered by a hand-written children-first walk over pointers, so that
+/// "the indices at which its actual left and right children were yielded" is judged against the node's own fields.
+fn marker_events<N: simplicity::node::Marker>(root: &std::sync::Arc<simplicity::node::Node<N>>, right: for<'a> fn(&'a N::Disconnect) -> Option<&'a simplicity::node::Node<N>>,
+    marker: &str, max_label: Option<&dyn Fn(&simplicity::node::Node<N>) -> Option<String>>, out: &mut Out) -> bool {
+    use simplicity::dag::MaxSharing;
+    use simplicity::node::Node;
+    use std::sync::Arc;
+    // hand-written post-order over pointers
+    let mut idx: HashMap<usize, usize> = HashMap::new();
+    let mut djson: Vec<J> = vec![];
+    let mut objs: Vec<&Node<N>> = vec![];
+    let mut stack: Vec<(&Node<N>, u8)> = vec![(&**root, 0)];
+    while let Some((n, st)) = stack.pop() {
+        let key = n as *const Node<N> as usize;
+        if idx.contains_key(&key) { continue; }
+        let (l, r) = kids(n, right);
+        if st == 0 {
+            stack.push((n, 1));
+            if let Some(r) = r { stack.push((r, 0)); }
+            if let Some(l) = l { stack.push((l, 0)); }
+        } else {
+            let li = l.map_or(0, |x| idx[&(x as *const Node<N> as usize)]);
+            let ri = r.map_or(0, |x| idx[&(x as *const Node<N> as usize)]);
+            djson.push(json!([li, ri]));
+            objs.push(n);
+            idx.insert(key, djson.len());
+        }
+    }
+    let n = djson.len();
+    if n > 40 { return false; }
+    // size of the tree expansion (NoSharing yields one item per path)
+    let mut exp = vec![0f64; n + 1];
+    for k in 1..=n { exp[k] = 1.0 + [0usize, 1].iter().map(|s| { let c = ju(&djson[k - 1][*s]); if c == 0 { 0.0 } else { exp[c] } }).sum::<f64>(); }
+    let small = exp[n] <= 400.0;
+    let internal: Vec<usize> = (1..=n).collect();
+    let zeros: Vec<usize> = vec![0; n];
+    let maxl: Option<Vec<usize>> = max_label.map(|f| {
+        let mut first: HashMap<String, usize> = HashMap::new();
+        objs.iter().enumerate().map(|(i, o)| match f(o) { None => 0, Some(h) => *first.entry(h).or_insert(i + 1) }).collect()
+    });
+    let pid_ref = |x: &Node<N>| idx[&(x as *const Node<N> as usize)];
+    let pid_arc = |x: &Arc<Node<N>>| idx[&(Arc::as_ptr(x) as usize)];
+    macro_rules! emit_all {
+        ($S:ty, $sid:expr, $name:expr) => {{
+            let sid = $sid;
+            let r: &Node<N> = &**root;
+            let post: Vec<J> = r.post_order_iter::<$S>().map(|it| json!([pid_ref(it.node), it.index, opt(it.left_index), opt(it.right_index)])).collect();
+            let shared = r.is_shared_as::<$S>();
+            out.emit(&json!({"ev": "post", "md": -1, "dag": djson, "sid": sid, "items": post, "shared": shared, "real": true, "marker": marker, "via": "ref", "tracker": $name}));
+            let rtl: Vec<J> = r.rtl_post_order_iter::<$S>().map(|it| json!([pid_ref(it.node), it.index, opt(it.left_index), opt(it.right_index)])).collect();
+            out.emit(&json!({"ev": "rtl", "md": -1, "dag": djson, "sid": sid, "items": rtl, "shared": false, "real": true, "marker": marker, "via": "ref", "tracker": $name}));
+            let pre: Vec<J> = r.pre_order_iter::<$S>().map(|x| json!(pid_ref(x))).collect();
+            out.emit(&json!({"ev": "pre", "md": -1, "dag": djson, "sid": sid, "items": pre, "shared": false, "real": true, "marker": marker, "via": "ref", "tracker": $name}));
+            let post: Vec<J> = Arc::clone(root).post_order_iter::<$S>().map(|it| json!([pid_arc(&it.node), it.index, opt(it.left_index), opt(it.right_index)])).collect();
+            let shared = Arc::clone(root).is_shared_as::<$S>();
+            out.emit(&json!({"ev": "post", "md": -1, "dag": djson, "sid": sid, "items": post, "shared": shared, "real": true, "marker": marker, "via": "arc", "tracker": $name}));
+            let rtl: Vec<J> = Arc::clone(root).rtl_post_order_iter::<$S>().map(|it| json!([pid_arc(&it.node), it.index, opt(it.left_index), opt(it.right_index)])).collect();
+            out.emit(&json!({"ev": "rtl", "md": -1, "dag": djson, "sid": sid, "items": rtl, "shared": false, "real": true, "marker": marker, "via": "arc", "tracker": $name}));
+            let pre: Vec<J> = Arc::clone(root).pre_order_iter::<$S>().map(|x| json!(pid_arc(&x))).collect();
+            out.emit(&json!({"ev": "pre", "md": -1, "dag": djson, "sid": sid, "items": pre, "shared": false, "real": true, "marker": marker, "via": "arc", "tracker": $name}));
+        }};
+    }
+    emit_all!(InternalSharing, &internal, "internal");
+    if small { emit_all!(NoSharing, &zeros, "none"); }
+    if let Some(l) = &maxl { emit_all!(MaxSharing<N>, l, "max"); }
+    true
+}
+
+/// Real programs of all three node kinds (construction-time with optional disconnect branches, commitment-time without,
+/// redemption-time with mandatory ones), each traversed by reference and by `Arc`.
+fn real_marker_events(rng: &mut Rng, out: &mut Out, runs: usize) {
+    use crate::gen::{Gen, JetSig, Ty};
+    use crate::prog::Family;
+    use simplicity::node::{Commit, Construct, Node, Redeem};
+    use std::sync::Arc;
+    fn right_redeem<'a>(d: &'a Arc<Node<Redeem>>) -> Option<&'a Node<Redeem>> { Some(&**d) }
+    fn right_commit<'a>(_: &'a simplicity::node::NoDisconnect) -> Option<&'a Node<Commit>> { None }
+    fn right_construct<'a, 'b>(d: &'a Option<Arc<Node<Construct<'b>>>>) -> Option<&'a Node<Construct<'b>>> { d.as_deref() }
+    let empty: Vec<JetSig> = vec![];
+    let mut done = 0;
+    let mut attempts = 0;
+    while done < runs && attempts < runs * 30 {
+        attempts += 1;
+        let dag = { let mut g = Gen::new(rng, &empty, 4 + attempts % 20); g.allow_disconnect = true; g.allow_witness = true; g.cmr_n = 8; let r = g.expr(&Ty::Unit, &Ty::Unit, 7); g.finish(r) };
+        let nodes = dag.as_array().unwrap();
+        let has_disc = nodes.iter().any(|nd| nd[0] == "disc");
+        if !has_disc && attempts % 3 != 0 { continue; }
+        if nodes.iter().any(|nd| nd[0] == "word" || nd[0] == "jet") { continue; }
+        let n = nodes.len();
+        let mut ty = vec![J::Null; n];
+        ty[n - 1] = json!([["1"], ["1"]]);
+        let aux0 = json!(vec![json!(["none"]); n]);
+        let ok = guarded(|| simplicity::types::Context::with_context(|ctx| {
+            let Ok((_, _, built)) = crate::c05::build_typed(&ctx, Family::Core, &dag, &json!(ty), &aux0) else { return false };
+            let full_ty: Vec<J> = built.iter().map(|b| { let a = b.arrow().finalize().unwrap(); json!([crate::tyval::ty_j(&a.source), crate::tyval::ty_j(&a.target)]) }).collect();
+            let mut auxv = vec![json!(["u"]); n];
+            for (i, nd) in nodes.iter().enumerate() {
+                if nd[0] == "witness" { auxv[i] = Ty::from_final(&crate::tyval::ty_of(&full_ty[i][1])).rand_val(rng); }
+            }
+            let Ok((redeem, _, built)) = crate::c05::build_typed(&ctx, Family::Core, &dag, &json!(full_ty), &json!(auxv)) else { return false };
+            let root = built.last().unwrap().clone();
+            let a = marker_events::<Construct>(&root, right_construct, "construct", None, out);
+            let ihr = |x: &Node<Redeem>| Some(x.ihr().to_string());
+            let b = marker_events::<Redeem>(&redeem, right_redeem, "redeem", Some(&ihr), out);
+            let c = match root.finalize_types() {
+                Ok(commit) => { let f = |x: &Node<Commit>| x.ihr().map(|h| h.to_string()); marker_events::<Commit>(&commit, right_commit, "commit", Some(&f), out) }
+                Err(_) => false,
+            };
+            a || b || c
+        }));
+        if ok == Ok(true) { done += 1; }
+    }
+}
+
 pub fn record(runs: usize, max_n: usize, path: &str) {
     let mut rng = Rng::from_env(18);
     let mut out = Out::file(path);
     real_node_events(&mut rng, &mut out, runs / 4 + 20);
+    real_marker_events(&mut rng, &mut out, runs / 40 + 10);
     let mut done = 0;
     while done < runs {
         let n = 1 + rng.below(max_n);
